@@ -18,6 +18,7 @@ Definition E_SIZE := 6.       (* cabinet size differs from the signature header'
 Definition E_MULTI := 7.      (* multipart cabinets *)
 Definition E_FLAGS := 8.      (* unsupported flags *)
 Definition E_TRAILING := 9.   (* "trailing garbage after cabinet" *)
+Definition E_LAYOUT := 10.    (* "unsupported layout of cabinet header": folder table does not end at coffFiles, or coffFiles > cbCabinet *)
 Definition E_NODIR := 11.     (* "zip central directory not found" *)
 Definition E_LOC := 12.       (* "expected ZIP64 locator" *)
 Definition E_END64 := 13.
@@ -103,6 +104,11 @@ Definition cab_parse (f : bytes) : result cabp :=
   let flags := fld cabh_ix_Flags hv in
   if cab_multipart flags then Err E_MULTI else
   if cab_unsupported_flags flags then Err E_FLAGS else
+  (* relic commit 6b49488: the header is patched by offset, the rest digested in sequence; both agree only for this layout *)
+  let he0 := cab_hdr_end (fld cabh_ix_NumFolders hv) in
+  let he := if cab_hdr_end_has_reserve flags
+            then cab_hdr_end_reserve he0 (match fst p1 with Some (rv, _, _) => fld cabrh_ix_HeaderSize rv | None => 0 end) else he0 in
+  if cab_bad_layout (fld cabh_ix_OffsetFiles hv) he (fld cabh_ix_TotalSize hv) then Err E_LAYOUT else
   p2 <- read_folders folder_fuel 0 (fld cabh_ix_NumFolders hv) (snd p1) ;;
   p3 <- take_n (fc_wrap32 (cab_data_len (fld cabh_ix_TotalSize hv) (fld cabh_ix_OffsetFiles hv))) (snd p2) ;;
   p4 <- (if res_has_sig (fst p1) then take_n (fld cabsh_ix_SignatureSize (res_sv (fst p1))) (snd p3) else Ok ([], snd p3)) ;;
@@ -171,22 +177,25 @@ Definition cab_patchset (p : cabp) (b : bytes) : list C12.Model.patch :=
     (cab_patch2_off (fld cabh_ix_TotalSize (c_hv p))) (cab_patch2_old (cab_old_sig_size p)) (cab_pad8 b).
 
 (* ---- the three functions of the format *)
+(* the patch set travels through PatchSet.Dump (which sorts it by offset) and binpatch.Load before it is applied *)
 Definition cab_hashin (f : bytes) : result bytes := p <- cab_parse f ;; Ok (cab_pre p).
 (* signed file = relic's patch set applied to the file; `same` = output path is the input path (Apply may patch in place) *)
 Definition cab_embed_at (same : bool) (f b : bytes) : result bytes :=
-  p <- cab_parse f ;; C12.Model.apply same true same false (cab_patchset p b) f.
-Definition cab_embed (f b : bytes) : result bytes := p <- cab_parse f ;; C12.Model.rewrite (cab_patchset p b) f.
+  p <- cab_parse f ;; C12.Model.apply same true same false (C12.Model.isort (cab_patchset p b)) f.
+Definition cab_embed (f b : bytes) : result bytes := p <- cab_parse f ;; C12.Model.rewrite (C12.Model.isort (cab_patchset p b)) f.
 Definition cab_extract (f : bytes) : result (option bytes) :=
   p <- cab_parse f ;; Ok (if cab_not_signed (zlen (c_sig p)) then None else Some (c_sig p)).
 
 (* ---- explicit, decidable domain on which the laws hold *)
 Definition cab_P (p : cabp) : Z :=            (* position of the reader after the folder headers *)
   cabh_size + match c_res p with Some (_, _, pad) => cabrh_size + cabsh_size + pad | None => 0 end + cabfh_size * zlen (c_folders p).
+(* 32-bit headroom: cbCabinet and every folder offset still fit after the header has grown to the signed layout.  (That the
+   folder table ends at coffFiles and coffFiles <= cbCabinet is guaranteed by cabfile.Digest itself since relic commit 6b49488:
+   theorem cab_accepted_layout.) *)
 Definition cabp_wf (p : cabp) : bool :=
-  let O := fld cabh_ix_OffsetFiles (c_hv p) in
   let T := fld cabh_ix_TotalSize (c_hv p) in
   let d := cab_add_offset p in
-  (cab_P p =? O) && (O <=? T) && (T + d <? 2 ^ 32)
+  (T + d <? 2 ^ 32)
   && forallb (fun fv => (0 <=? fld cabfh_ix_Offset fv + d) && (fld cabfh_ix_Offset fv + d <? 2 ^ 32)) (c_folders p).
 Definition cab_wf (f : bytes) : bool :=
   all_bytes f && match cab_parse f with Ok p => cabp_wf p | _ => false end.
@@ -309,13 +318,16 @@ Definition xap_tar (f : bytes) : result (bytes * Z) :=
   if (zip_tar_cd_len size d <? zip_tar_cd_size size d) || (zip_tar_zip_len size <? zip_tar_zip_size size d)
      || (size <? zip_tar_zip_from + zip_tar_zip_size size d) || negb (zip_tar_zip_from =? 0) then Err E_SHORT else
   Ok (zslice (zip_tar_cd_from d) (zip_tar_cd_from d + zip_tar_cd_size size d) f, zip_tar_zip_size size d).
-(* signxap.removeSignature: slices cd[size-10:size] (panics when shorter), strips a trailer it recognises by magic *)
+(* signxap.removeSignature: a blob shorter than a trailer is returned as it is (guard of relic commit f898997); otherwise
+   slices cd[size-10:size] (Panic 1 models the slice with a negative bound, unreachable while the guard stands), strips a
+   trailer it recognises by magic and whose size field fits the blob (Panic 2: negative new length, likewise unreachable) *)
 Definition xap_remove_signature (cd : bytes) : result bytes :=
   let size := zlen cd in
+  if xap_rm_too_short size then Ok cd else
   let st := xap_rm_trailer_start size in
   if st <? 0 then Panic 1 else
   let tr := dec_struct xaptr_widths (zslice st size cd) in
-  if xap_rm_has_trailer (fld xaptr_ix_Magic tr) then
+  if xap_rm_has_trailer (fld xaptr_ix_Magic tr) (fld xaptr_ix_TrailerSize tr) size then
     let size' := xap_rm_new_size size (fld xaptr_ix_TrailerSize tr) in
     if size' <? 0 then Panic 2 else Ok (ztake size' cd)
   else Ok cd.
@@ -345,9 +357,9 @@ Definition xap_sigblock (b : bytes) : bytes :=
   assemble xap_write_order [enc_struct xaphd_widths (xap_hdr_vals (zlen b)); enc_struct xaptr_widths (xap_tr_vals (zlen b))] b.
 Definition xap_patchset (d : xapd) (b : bytes) : list C12.Model.patch :=
   C12.Model.add [] (xap_patch_off (x_start d)) (xap_patch_old (x_len d)) (xap_sigblock b).
-Definition xap_embed (f b : bytes) : result bytes := d <- xap_digest f ;; C12.Model.rewrite (xap_patchset d b) f.
+Definition xap_embed (f b : bytes) : result bytes := d <- xap_digest f ;; C12.Model.rewrite (C12.Model.isort (xap_patchset d b)) f.
 Definition xap_embed_at (same : bool) (f b : bytes) : result bytes :=
-  d <- xap_digest f ;; C12.Model.apply same true same false (xap_patchset d b) f.
+  d <- xap_digest f ;; C12.Model.apply same true same false (C12.Model.isort (xap_patchset d b)) f.
 
 (* signxap.Verify up to the extraction of the blob: Some (size of the signed prefix, blob) / None = NotSignedError *)
 Definition xap_vparse (g : bytes) : result (option (Z * bytes)) :=
@@ -403,9 +415,9 @@ Definition xap_protected (g : bytes) : bytes :=
   if start <? 0 then g else ztake start g ++ zslice (start + 4) (n - 6) g ++ zdrop (n - 4) g.
 
 (* ================================================================== XAP: the explicit, decidable domain of the laws *)
-(* when the end record asks for ZIP64, the ZIP64 end-of-directory record lies inside the zip part (not in a signature trailer) *)
-Definition xap_zip64_inside (f : bytes) : bool :=
-  let size := zip_tar_find_size (zlen f) (xap_tf_trailer f) in
+(* when the end record read in the window that ends at `size` asks for ZIP64, the ZIP64 end-of-directory record lies inside
+   the first `size` bytes (the zip part, not a signature trailer) *)
+Definition zip64_inside_at (f : bytes) (size : Z) : bool :=
   match zip_window f size with
   | Ok w =>
       let loc := dec_struct ziploc_widths (ztake ziploc_size w) in
@@ -414,7 +426,18 @@ Definition xap_zip64_inside (f : bytes) : bool :=
       then to_i64 (fld ziploc_ix_Offset loc) + zip_directory64EndLen <=? size else true
   | _ => true
   end.
-(* unsigned zips AND already signed XAP files: bytes, shorter than 4 GiB, accepted by the signer's digest code, the
-   specification's trailer split is defined (a trailer, if any, is consistent) *)
+Definition xap_zip64_inside (f : bytes) : bool := zip64_inside_at f (zip_tar_find_size (zlen f) (xap_tf_trailer f)).
+(* the central directory offset the end record gives lies inside the zip part (not in or behind an existing signature) *)
+Definition xap_dir_inside (f : bytes) : bool :=
+  match xap_find_dir f with Ok d => d <=? zip_tar_find_size (zlen f) (xap_tf_trailer f) | _ => false end.
+(* unsigned zips AND already signed XAP files: bytes, accepted by the signer's digest code, directory (and ZIP64 record)
+   inside the zip part, the specification's trailer split is defined (a trailer, if any, is consistent) *)
 Definition xap_wf (f : bytes) : bool :=
-  all_bytes f && (zlen f <? 2 ^ 32) && is_ok (xap_digest f) && xap_zip64_inside f && is_ok (xap_spec_split f).
+  all_bytes f && is_ok (xap_digest f) && xap_zip64_inside f && xap_dir_inside f && is_ok (xap_spec_split f).
+
+(* ================================================================== guarded embedding: what Laws/Pipeline.v is instantiated with *)
+Definition E_DOMAIN := 40.    (* outside the stated well-formedness domain (never returned by relic) *)
+Definition cab_embed_wf (f b : bytes) : result bytes :=
+  if cab_wf f && blob_wf b && blob_aligned b then cab_embed f b else Err E_DOMAIN.
+Definition xap_embed_wf (f b : bytes) : result bytes :=
+  if xap_wf f && xap_blob_wf b then xap_embed f b else Err E_DOMAIN.
